@@ -196,5 +196,433 @@ theorem slots_independent (ls : List (Bool × Label)) (s : State × State) :
 example : ((run2 (init0, init0) [(false, .init 1), (false, .init 2), (true, .init 3), (true, .emit 9)]).1.2).received = [(3, 9)] := by
   decide
 
+/-! ## The process-global slots through the public front doors -/
+
+def gfinal (ls : List GLabel) : GState := (grun g0 ls).1
+
+
+/-- The invariant of the global machine: a filter is stored exactly with a winner, a kept guard belongs to the
+    winner of the shared slot, and every delivery and every flush went to a slot's winner. -/
+structure GInv (s : GState) : Prop where
+  sharedF_iff : s.sharedF.isSome = s.shared.slot.isSome
+  internalF_iff : s.internalF.isSome = s.internal.slot.isSome
+  guards_winner : ∀ g ∈ s.guards, s.shared.slot = some g.1
+  delivered_winner : ∀ d ∈ s.delivered, s.shared.slot = some d.cfg ∨ s.internal.slot = some d.cfg
+  flushes_winner : ∀ p ∈ s.flushes, s.shared.slot = some p.1
+  guards_le_one : s.guards.length ≤ 1
+
+theorem ginv_init : GInv g0 := ⟨rfl, rfl, by simp [g0], by simp [g0], by simp [g0], by simp [g0]⟩
+
+theorem initShared_spec (s : GState) (i : Nat) (f : FSpec) :
+    (s.shared.slot = none → (s.initShared i f).2 = true ∧ (s.initShared i f).1.shared.slot = some i ∧
+      (s.initShared i f).1.sharedF = some f) ∧
+    (∀ w, s.shared.slot = some w → (s.initShared i f).2 = false ∧ (s.initShared i f).1.shared.slot = some w ∧
+      (s.initShared i f).1.sharedF = s.sharedF) ∧
+    (s.initShared i f).1.internal = s.internal ∧ (s.initShared i f).1.internalF = s.internalF ∧
+    (s.initShared i f).1.guards = s.guards ∧ (s.initShared i f).1.delivered = s.delivered ∧
+    (s.initShared i f).1.flushes = s.flushes := by
+  cases h : s.shared.slot <;> simp [GState.initShared, step, h]
+
+theorem initInternal_spec (s : GState) (i : Nat) (f : FSpec) :
+    (s.internal.slot = none → (s.initInternal i f).2 = true ∧ (s.initInternal i f).1.internal.slot = some i ∧
+      (s.initInternal i f).1.internalF = some f) ∧
+    (∀ w, s.internal.slot = some w → (s.initInternal i f).2 = false ∧ (s.initInternal i f).1.internal.slot = some w ∧
+      (s.initInternal i f).1.internalF = s.internalF) ∧
+    (s.initInternal i f).1.shared = s.shared ∧ (s.initInternal i f).1.sharedF = s.sharedF ∧
+    (s.initInternal i f).1.guards = s.guards ∧ (s.initInternal i f).1.delivered = s.delivered ∧
+    (s.initInternal i f).1.flushes = s.flushes := by
+  cases h : s.internal.slot <;> simp [GState.initInternal, step, h]
+
+theorem ginv_initShared (s : GState) (i : Nat) (f : FSpec) (h : GInv s) : GInv (s.initShared i f).1 := by
+  obtain ⟨h1, h2, h3, h4, h5, h6⟩ := h
+  obtain ⟨a, b, c1, c2, c3, c4, c5⟩ := initShared_spec s i f
+  cases hs : s.shared.slot with
+  | none =>
+    obtain ⟨_, a2, a3⟩ := a hs
+    have hg : s.guards = [] := by
+      cases hgs : s.guards with
+      | nil => rfl
+      | cons g gs => have := h3 g (by simp [hgs]); simp [hs] at this
+    have hf : s.flushes = [] := by
+      cases hfs : s.flushes with
+      | nil => rfl
+      | cons p ps => have := h5 p (by simp [hfs]); simp [hs] at this
+    refine ⟨by simp [a2, a3], by rw [c1, c2]; exact h2, by simp [c3, hg], ?_, by simp [c5, hf], by simp [c3, hg]⟩
+    intro d hd
+    rw [c4] at hd
+    rcases h4 d hd with h | h
+    · simp [hs] at h
+    · right; rw [c1]; exact h
+  | some w =>
+    obtain ⟨_, b2, b3⟩ := b w hs
+    refine ⟨by rw [b2, b3, h1, hs], by rw [c1, c2]; exact h2, by rw [c3, b2, ← hs]; exact h3, ?_,
+      by rw [c5, b2, ← hs]; exact h5, by rw [c3]; exact h6⟩
+    intro d hd
+    rw [c4] at hd
+    rw [b2, c1, ← hs]; exact h4 d hd
+
+theorem ginv_initInternal (s : GState) (i : Nat) (f : FSpec) (h : GInv s) : GInv (s.initInternal i f).1 := by
+  obtain ⟨h1, h2, h3, h4, h5, h6⟩ := h
+  obtain ⟨a, b, c1, c2, c3, c4, c5⟩ := initInternal_spec s i f
+  cases hs : s.internal.slot with
+  | none =>
+    obtain ⟨_, a2, a3⟩ := a hs
+    refine ⟨by rw [c1, c2]; exact h1, by simp [a2, a3], by rw [c3, c1]; exact h3, ?_, by rw [c5, c1]; exact h5,
+      by rw [c3]; exact h6⟩
+    intro d hd
+    rw [c4] at hd
+    rcases h4 d hd with h | h
+    · left; rw [c1]; exact h
+    · simp [hs] at h
+  | some w =>
+    obtain ⟨_, b2, b3⟩ := b w hs
+    refine ⟨by rw [c1, c2]; exact h1, by rw [b2, b3, h2, hs], by rw [c3, c1]; exact h3, ?_, by rw [c5, c1]; exact h5,
+      by rw [c3]; exact h6⟩
+    intro d hd
+    rw [c4] at hd
+    rw [b2, c1, ← hs]; exact h4 d hd
+
+theorem throughRuntime_some (slot : State) (flt : Option FSpec) (e : GEvt) (d : Delivery)
+    (h : throughRuntime slot flt e = some d) :
+    slot.slot = some d.cfg ∧ d.evt = e ∧ d.amb = some d.cfg ∧ d.clocked = true ∧ ∃ f, flt = some f ∧ f.accepts e = true := by
+  unfold throughRuntime at h
+  cases hs : slot.slot <;> cases hf : flt <;> simp [hs, hf] at h
+  obtain ⟨ha, rfl⟩ := h
+  exact ⟨rfl, rfl, rfl, rfl, _, rfl, ha⟩
+
+theorem step_emit_slot (s : State) (e : Nat) : (step s (.emit e)).1.slot = s.slot := by
+  cases h : s.slot <;> simp [step, h]
+
+/-- The invariant is preserved by every step of every thread. -/
+theorem ginv_step (s : GState) (l : GLabel) (h : GInv s) : GInv (gstep s l).1 := by
+  cases l with
+  | init i f => exact ginv_initShared s i f h
+  | tryInit i f => exact ginv_initShared s i f h
+  | initGuard i f t =>
+    have hi := ginv_initShared s i f h
+    simp only [gstep]
+    split
+    · rename_i hok
+      obtain ⟨a, b, _, _, c3, _, _⟩ := initShared_spec s i f
+      cases hs : s.shared.slot with
+      | some w => simp [(b w hs).1] at hok
+      | none =>
+        obtain ⟨_, a2, _⟩ := a hs
+        have hg : s.guards = [] := by
+          cases hgs : s.guards with
+          | nil => rfl
+          | cons g gs => have := h.guards_winner g (by simp [hgs]); simp [hs] at this
+        exact ⟨hi.1, hi.2, by simp [c3, hg, a2], hi.4, hi.5, by simp [c3, hg]⟩
+    · exact hi
+  | dropGuard =>
+    obtain ⟨h1, h2, h3, h4, h5, h6⟩ := h
+    refine ⟨h1, h2, by simp [gstep], h4, ?_, by simp [gstep]⟩
+    intro p hp
+    simp only [gstep, List.mem_append] at hp
+    rcases hp with hp | hp
+    · exact h3 p hp
+    · exact h5 p hp
+  | initInternal i f => exact ginv_initInternal s i f h
+  | tryInitInternal i f => exact ginv_initInternal s i f h
+  | emit e =>
+    obtain ⟨h1, h2, h3, h4, h5, h6⟩ := h
+    simp only [gstep]
+    cases ht : throughRuntime s.shared s.sharedF e with
+    | none => exact ⟨h1, h2, h3, h4, h5, h6⟩
+    | some d =>
+      obtain ⟨hw, _, _, _, _⟩ := throughRuntime_some _ _ _ _ ht
+      refine ⟨by simpa [step_emit_slot] using h1, h2, by simpa [step_emit_slot] using h3, ?_,
+        by simpa [step_emit_slot] using h5, h6⟩
+      intro d' hd'
+      simp only [List.mem_cons] at hd'
+      rcases hd' with rfl | hd'
+      · left; simpa [step_emit_slot] using hw
+      · simpa [step_emit_slot] using h4 d' hd'
+  | span e =>
+    obtain ⟨h1, h2, h3, h4, h5, h6⟩ := h
+    simp only [gstep]
+    cases ht : throughRuntime s.shared s.sharedF e with
+    | none => exact ⟨h1, h2, h3, h4, h5, h6⟩
+    | some d =>
+      obtain ⟨hw, _, _, _, _⟩ := throughRuntime_some _ _ _ _ ht
+      refine ⟨by simpa [step_emit_slot] using h1, h2, by simpa [step_emit_slot] using h3, ?_,
+        by simpa [step_emit_slot] using h5, h6⟩
+      intro d' hd'
+      simp only [List.mem_cons] at hd'
+      rcases hd' with rfl | hd'
+      · left; simpa [step_emit_slot] using hw
+      · simpa [step_emit_slot] using h4 d' hd'
+  | direct e =>
+    obtain ⟨h1, h2, h3, h4, h5, h6⟩ := h
+    simp only [gstep]
+    cases hs : s.shared.slot with
+    | none => exact ⟨h1, h2, h3, h4, h5, h6⟩
+    | some w =>
+      refine ⟨by simpa [step_emit_slot] using h1, h2, by simpa [step_emit_slot] using h3, ?_,
+        by simpa [step_emit_slot] using h5, h6⟩
+      intro d' hd'
+      simp only [List.mem_cons] at hd'
+      rcases hd' with rfl | hd'
+      · left; simpa [step_emit_slot] using hs
+      · simpa [step_emit_slot] using h4 d' hd'
+  | emitInternal e =>
+    obtain ⟨h1, h2, h3, h4, h5, h6⟩ := h
+    simp only [gstep]
+    cases ht : throughRuntime s.internal s.internalF e with
+    | none => exact ⟨h1, h2, h3, h4, h5, h6⟩
+    | some d =>
+      obtain ⟨hw, _, _, _, _⟩ := throughRuntime_some _ _ _ _ ht
+      refine ⟨h1, by simpa [step_emit_slot] using h2, h3, ?_, h5, h6⟩
+      intro d' hd'
+      simp only [List.mem_cons] at hd'
+      rcases hd' with rfl | hd'
+      · right; simpa [step_emit_slot] using hw
+      · simpa [step_emit_slot] using h4 d' hd'
+  | flush t =>
+    obtain ⟨h1, h2, h3, h4, h5, h6⟩ := h
+    simp only [gstep]
+    cases hs : s.shared.slot with
+    | none => exact ⟨h1, h2, h3, h4, h5, h6⟩
+    | some w =>
+      refine ⟨h1, h2, h3, h4, ?_, h6⟩
+      intro p hp
+      simp only [List.mem_cons] at hp
+      rcases hp with rfl | hp
+      · exact hs
+      · exact h5 p hp
+  | observe => exact h
+
+theorem ginv_run (s : GState) (ls : List GLabel) (h : GInv s) : GInv (grun s ls).1 := by
+  induction ls generalizing s with
+  | nil => exact h
+  | cons l rest ih => simp only [grun]; exact ih _ (ginv_step s l h)
+
+/-- **Initialisation outcomes, decided outright.** On either global slot the panicking form returns a handle iff
+    the slot was empty and panics otherwise; the try form reports exactly that as a Boolean; `flush_on_drop`
+    yields a guard only when `init()` returned. -/
+theorem global_init_outcome (s : GState) (i : Nat) (f : FSpec) (t : Nat) :
+    (gstep s (.init i f)).2 = .inited s.shared.slot.isSome ∧
+    (gstep s (.tryInit i f)).2 = .tried s.shared.slot.isNone ∧
+    (gstep s (.initGuard i f t)).2 = .inited s.shared.slot.isSome ∧
+    (gstep s (.initGuard i f t)).1.guards = (if s.shared.slot.isNone then (i, t) :: s.guards else s.guards) ∧
+    (gstep s (.initInternal i f)).2 = .inited s.internal.slot.isSome ∧
+    (gstep s (.tryInitInternal i f)).2 = .tried s.internal.slot.isNone := by
+  cases hs : s.shared.slot <;> cases hi : s.internal.slot <;>
+    simp [gstep, GState.initShared, GState.initInternal, step, hs, hi]
+
+theorem gstep_keeps_winner (s : GState) (l : GLabel) :
+    (∀ w, s.shared.slot = some w → (gstep s l).1.shared.slot = some w ∧ (gstep s l).1.sharedF = s.sharedF) ∧
+    (∀ w, s.internal.slot = some w → (gstep s l).1.internal.slot = some w ∧ (gstep s l).1.internalF = s.internalF) := by
+  have hsh : ∀ i f, (∀ w, s.shared.slot = some w → (s.initShared i f).1.shared.slot = some w ∧
+        (s.initShared i f).1.sharedF = s.sharedF) ∧
+      (∀ w, s.internal.slot = some w → (s.initShared i f).1.internal.slot = some w ∧
+        (s.initShared i f).1.internalF = s.internalF) := by
+    intro i f
+    obtain ⟨_, b, c1, c2, _⟩ := initShared_spec s i f
+    exact ⟨fun w hw => ⟨(b w hw).2.1, (b w hw).2.2⟩, fun w hw => ⟨by rw [c1]; exact hw, c2⟩⟩
+  have hin : ∀ i f, (∀ w, s.shared.slot = some w → (s.initInternal i f).1.shared.slot = some w ∧
+        (s.initInternal i f).1.sharedF = s.sharedF) ∧
+      (∀ w, s.internal.slot = some w → (s.initInternal i f).1.internal.slot = some w ∧
+        (s.initInternal i f).1.internalF = s.internalF) := by
+    intro i f
+    obtain ⟨_, b, c1, c2, _⟩ := initInternal_spec s i f
+    exact ⟨fun w hw => ⟨by rw [c1]; exact hw, c2⟩, fun w hw => ⟨(b w hw).2.1, (b w hw).2.2⟩⟩
+  cases l with
+  | init i f => exact hsh i f
+  | tryInit i f => exact hsh i f
+  | initGuard i f t =>
+    simp only [gstep]
+    split
+    · exact hsh i f
+    · exact hsh i f
+  | dropGuard => exact ⟨fun w hw => ⟨hw, rfl⟩, fun w hw => ⟨hw, rfl⟩⟩
+  | initInternal i f => exact hin i f
+  | tryInitInternal i f => exact hin i f
+  | emit e =>
+    simp only [gstep]
+    cases throughRuntime s.shared s.sharedF e with
+    | none => exact ⟨fun w hw => ⟨hw, rfl⟩, fun w hw => ⟨hw, rfl⟩⟩
+    | some d => exact ⟨fun w hw => ⟨by simpa [step_emit_slot] using hw, rfl⟩, fun w hw => ⟨hw, rfl⟩⟩
+  | span e =>
+    simp only [gstep]
+    cases throughRuntime s.shared s.sharedF e with
+    | none => exact ⟨fun w hw => ⟨hw, rfl⟩, fun w hw => ⟨hw, rfl⟩⟩
+    | some d => exact ⟨fun w hw => ⟨by simpa [step_emit_slot] using hw, rfl⟩, fun w hw => ⟨hw, rfl⟩⟩
+  | direct e =>
+    simp only [gstep]
+    cases hs : s.shared.slot with
+    | none => exact ⟨fun w hw => by simp at hw, fun w hw => ⟨hw, rfl⟩⟩
+    | some v => exact ⟨fun w hw => ⟨by simpa [step_emit_slot, hs] using hw, rfl⟩, fun w hw => ⟨hw, rfl⟩⟩
+  | emitInternal e =>
+    simp only [gstep]
+    cases throughRuntime s.internal s.internalF e with
+    | none => exact ⟨fun w hw => ⟨hw, rfl⟩, fun w hw => ⟨hw, rfl⟩⟩
+    | some d => exact ⟨fun w hw => ⟨hw, rfl⟩, fun w hw => ⟨by simpa [step_emit_slot] using hw, rfl⟩⟩
+  | flush t =>
+    simp only [gstep]
+    cases hs : s.shared.slot with
+    | none => exact ⟨fun w hw => by simp at hw, fun w hw => ⟨hw, rfl⟩⟩
+    | some v => exact ⟨fun w hw => ⟨by simpa [hs] using hw, rfl⟩, fun w hw => ⟨hw, rfl⟩⟩
+  | observe => exact ⟨fun w hw => ⟨hw, rfl⟩, fun w hw => ⟨hw, rfl⟩⟩
+
+/-- **The first winner stays, with the filter it was configured with**, on both slots, whatever any thread does
+    afterwards (further `init()` calls included: they panic and change nothing). -/
+theorem global_winner_stable (s : GState) (ls : List GLabel) :
+    (∀ w, s.shared.slot = some w → (grun s ls).1.shared.slot = some w ∧ (grun s ls).1.sharedF = s.sharedF) ∧
+    (∀ w, s.internal.slot = some w → (grun s ls).1.internal.slot = some w ∧ (grun s ls).1.internalF = s.internalF) := by
+  induction ls generalizing s with
+  | nil => exact ⟨fun w h => ⟨h, rfl⟩, fun w h => ⟨h, rfl⟩⟩
+  | cons l rest ih =>
+    simp only [grun]
+    have key := gstep_keeps_winner s l
+    constructor
+    · intro w hw
+      obtain ⟨k1, k2⟩ := key.1 w hw
+      obtain ⟨a, b⟩ := (ih (gstep s l).1).1 w k1
+      exact ⟨a, b.trans k2⟩
+    · intro w hw
+      obtain ⟨k1, k2⟩ := key.2 w hw
+      obtain ⟨a, b⟩ := (ih (gstep s l).1).2 w k1
+      exact ⟨a, b.trans k2⟩
+
+/-- **A second `init()` panics and its components are never used.** Once a slot has a winner `w`, after any
+    further steps of any threads every `init()` / `init_internal()` on it panics, `try_init` fails, no guard is
+    produced — and every delivery and every flush that ever happened went to a slot's winner, never to a
+    configuration whose initialisation failed. -/
+theorem global_second_init_panics (ls : List GLabel) (i : Nat) (f : FSpec) (t : Nat) :
+    let s := gfinal ls
+    (∀ w, s.shared.slot = some w →
+      (gstep s (.init i f)).2 = .inited true ∧ (gstep s (.tryInit i f)).2 = .tried false ∧
+      (gstep s (.initGuard i f t)).2 = .inited true ∧ (gstep s (.initGuard i f t)).1.guards = s.guards ∧
+      (gstep s (.init i f)).1.shared.slot = some w) ∧
+    (∀ w, s.internal.slot = some w →
+      (gstep s (.initInternal i f)).2 = .inited true ∧ (gstep s (.tryInitInternal i f)).2 = .tried false ∧
+      (gstep s (.initInternal i f)).1.internal.slot = some w) ∧
+    (∀ d ∈ s.delivered, s.shared.slot = some d.cfg ∨ s.internal.slot = some d.cfg) ∧
+    (∀ p ∈ s.flushes, s.shared.slot = some p.1) := by
+  intro s
+  have hinv : GInv s := ginv_run g0 ls ginv_init
+  obtain ⟨o1, o2, o3, o4, o5, o6⟩ := global_init_outcome s i f t
+  refine ⟨?_, ?_, hinv.delivered_winner, hinv.flushes_winner⟩
+  · intro w hw
+    refine ⟨by rw [o1, hw]; rfl, by rw [o2, hw]; rfl, by rw [o3, hw]; rfl, by rw [o4, hw]; rfl, ?_⟩
+    exact ((gstep_keeps_winner s (.init i f)).1 w hw).1
+  · intro w hw
+    exact ⟨by rw [o5, hw]; rfl, by rw [o6, hw]; rfl, ((gstep_keeps_winner s (.initInternal i f)).2 w hw).1⟩
+
+/-- **Inert before initialisation, through every front door.** While nobody has initialised either global slot:
+    the macros without `rt:` (events and spans), `runtime::shared().emit`, `emit::emitter().emit`,
+    `runtime::internal().emit` deliver nothing; `emit::blocking_flush` returns true and flushes nobody; the five
+    accessors show the empty runtime; dropping (no) guards does nothing. -/
+theorem global_inert_before (ls : List GLabel)
+    (h : ∀ l ∈ ls, l.initsShared = false ∧ l.initsInternal = false) :
+    (gfinal ls).shared.slot = none ∧ (gfinal ls).internal.slot = none ∧
+    (gfinal ls).delivered = [] ∧ (gfinal ls).flushes = [] ∧
+    ∀ o ∈ (grun g0 ls).2, o = .sent none ∨ o = .flushed true ∨ o = .comps none ∨ o = .dropped := by
+  suffices ∀ s : GState, s.shared.slot = none → s.internal.slot = none → s.guards = [] → s.delivered = [] →
+      s.flushes = [] →
+      (grun s ls).1.shared.slot = none ∧ (grun s ls).1.internal.slot = none ∧
+      (grun s ls).1.delivered = [] ∧ (grun s ls).1.flushes = [] ∧
+      ∀ o ∈ (grun s ls).2, o = .sent none ∨ o = .flushed true ∨ o = .comps none ∨ o = .dropped from
+    this g0 rfl rfl rfl rfl rfl
+  induction ls with
+  | nil => intro s h1 h2 h3 h4 h5; simp [grun, h1, h2, h4, h5]
+  | cons l rest ih =>
+    intro s h1 h2 h3 h4 h5
+    have hl := h l (by simp)
+    have hrest : ∀ l' ∈ rest, l'.initsShared = false ∧ l'.initsInternal = false := fun l' hl' => h l' (by simp [hl'])
+    simp only [grun]
+    -- a non-initialising step changes nothing and answers inertly
+    have key : (gstep s l).1 = s ∧
+        ((gstep s l).2 = .sent none ∨ (gstep s l).2 = .flushed true ∨ (gstep s l).2 = .comps none ∨
+          (gstep s l).2 = .dropped) := by
+      cases s with
+      | mk sh shF int intF gs dl fl =>
+        simp only at h1 h2 h3 h4 h5
+        subst h3 h5
+        cases l <;> simp [GLabel.initsShared, GLabel.initsInternal] at hl <;>
+          simp [gstep, throughRuntime, h1, h2]
+    obtain ⟨a, b, c, d, e⟩ := ih hrest (gstep s l).1 (by rw [key.1]; exact h1) (by rw [key.1]; exact h2)
+      (by rw [key.1]; exact h3) (by rw [key.1]; exact h4) (by rw [key.1]; exact h5)
+    refine ⟨a, b, c, d, ?_⟩
+    intro o ho
+    simp only [List.mem_cons] at ho
+    rcases ho with rfl | ho
+    · exact key.2
+    · exact e o ho
+
+/-- **Through the runtime the configured filter decides; `emit::emitter()` bypasses it.** With `w` in the shared
+    slot, set up with filter `f`: an event sent by a macro without `rt:` / `runtime::shared().emit` (and a span,
+    on its start event) reaches `w` — with the ambient `cfg = w` — iff `f` accepts it, and nobody otherwise;
+    an event sent through `emit::emitter()` ALWAYS reaches `w`, and arrives WITHOUT ambient properties and WITHOUT
+    a clock-assigned extent. -/
+theorem global_emit_iff_direct_bypasses (s : GState) (w : Nat) (f : FSpec) (hw : s.shared.slot = some w)
+    (hf : s.sharedF = some f) (e : GEvt) :
+    (gstep s (.emit e)).2 = .sent (if f.accepts e then some w else none) ∧
+    (gstep s (.emit e)).1.delivered = (if f.accepts e then ⟨w, e, some w, true⟩ :: s.delivered else s.delivered) ∧
+    (gstep s (.span e)).2 = .sent (if f.accepts e then some w else none) ∧
+    (gstep s (.span e)).1.delivered = (if f.accepts e then ⟨w, e, some w, true⟩ :: s.delivered else s.delivered) ∧
+    (gstep s (.direct e)).2 = .sent (some w) ∧
+    (gstep s (.direct e)).1.delivered = ⟨w, e, none, false⟩ :: s.delivered := by
+  cases ha : f.accepts e <;> simp [gstep, throughRuntime, hw, hf, ha]
+
+/-- **The internal runtime applies the filter it was configured with.** If `init_internal()` /
+    `try_init_internal()` of configuration `i` with filter `f` finds the internal slot empty, then after any
+    further steps of any threads an event sent through `runtime::internal()` reaches `i` iff `f` accepts it —
+    not "always", and not by any later configuration's filter. -/
+theorem internal_uses_configured_filter (s : GState) (hs : s.internal.slot = none) (i : Nat) (f : FSpec)
+    (ls : List GLabel) (e : GEvt) :
+    let s' := (grun (gstep s (.initInternal i f)).1 ls).1
+    (gstep s' (.emitInternal e)).2 = .sent (if f.accepts e then some i else none) ∧
+    (gstep s' (.emitInternal e)).1.delivered =
+      (if f.accepts e then ⟨i, e, some i, true⟩ :: s'.delivered else s'.delivered) := by
+  intro s'
+  obtain ⟨a, _⟩ := initInternal_spec s i f
+  obtain ⟨_, a2, a3⟩ := a hs
+  have h0 : (gstep s (.initInternal i f)).1 = (s.initInternal i f).1 := rfl
+  obtain ⟨k1, k2⟩ := (global_winner_stable (gstep s (.initInternal i f)).1 ls).2 i (by rw [h0]; exact a2)
+  have k2' : s'.internalF = some f := by rw [← a3, ← h0]; exact k2
+  have k1' : s'.internal.slot = some i := k1
+  cases ha : f.accepts e <;> simp [gstep, throughRuntime, k1', k2', ha]
+
+/-- … and the same for `Setup::init()` on the shared slot. -/
+theorem shared_uses_configured_filter (s : GState) (hs : s.shared.slot = none) (i : Nat) (f : FSpec)
+    (ls : List GLabel) (e : GEvt) :
+    let s' := (grun (gstep s (.init i f)).1 ls).1
+    (gstep s' (.emit e)).2 = .sent (if f.accepts e then some i else none) ∧
+    (gstep s' (.direct e)).2 = .sent (some i) := by
+  intro s'
+  obtain ⟨a, _⟩ := initShared_spec s i f
+  obtain ⟨_, a2, a3⟩ := a hs
+  have h0 : (gstep s (.init i f)).1 = (s.initShared i f).1 := rfl
+  obtain ⟨k1, k2⟩ := (global_winner_stable (gstep s (.init i f)).1 ls).1 i (by rw [h0]; exact a2)
+  have k2' : s'.sharedF = some f := by rw [← a3, ← h0]; exact k2
+  exact ⟨(global_emit_iff_direct_bypasses s' i f k1 k2' e).1, (global_emit_iff_direct_bypasses s' i f k1 k2' e).2.2.2.2.1⟩
+
+/-- **`flush_on_drop`.** Dropping the guard flushes the guard's own emitter exactly once with the guard's
+    timeout; there is at most one guard (only a successful `init()` yields one), it belongs to the winner, and a
+    second drop flushes nothing. `emit::blocking_flush(t)` flushes the winner with `t` and reports its answer. -/
+theorem guard_flushes_on_drop (ls : List GLabel) :
+    let s := gfinal ls
+    (gstep s .dropGuard).1.flushes = s.guards ++ s.flushes ∧ (gstep s .dropGuard).1.guards = [] ∧
+    (gstep (gstep s .dropGuard).1 .dropGuard).1.flushes = (gstep s .dropGuard).1.flushes ∧
+    s.guards.length ≤ 1 ∧ (∀ g ∈ s.guards, s.shared.slot = some g.1) ∧
+    (∀ w t, s.shared.slot = some w →
+      (gstep s (.flush t)).2 = .flushed (decide (flushNeeds ≤ t)) ∧ (gstep s (.flush t)).1.flushes = (w, t) :: s.flushes) := by
+  intro s
+  have hinv : GInv s := ginv_run g0 ls ginv_init
+  refine ⟨rfl, rfl, by simp [gstep], hinv.guards_le_one, hinv.guards_winner, ?_⟩
+  intro w t hw
+  simp [gstep, hw]
+
+/-! ### Non-vacuity -/
+example : (grun g0 [.emit ⟨1, some 3⟩, .direct ⟨2, none⟩, .flush 0, .observe, .span ⟨3, some 2⟩, .emitInternal ⟨4, none⟩]).2 =
+    [.sent none, .sent none, .flushed true, .comps none, .sent none, .sent none] := by decide
+example : (grun g0 [.init 1 .none, .emit ⟨1, some 3⟩, .direct ⟨2, some 3⟩, .init 2 .all, .emit ⟨3, none⟩]).2 =
+    [.inited false, .sent none, .sent (some 1), .inited true, .sent none] := by decide
+example : (gfinal [.initGuard 1 (.minLvl 2) 499, .emit ⟨1, some 1⟩, .emit ⟨2, some 2⟩, .dropGuard, .dropGuard]).flushes = [(1, 499)] ∧
+    (gfinal [.initGuard 1 (.minLvl 2) 499, .emit ⟨1, some 1⟩, .emit ⟨2, some 2⟩]).delivered = [⟨1, ⟨2, some 2⟩, some 1, true⟩] := by decide
+example : (grun g0 [.initInternal 1 (.minLvl 2), .initInternal 2 .all, .emitInternal ⟨1, some 1⟩, .emitInternal ⟨2, some 3⟩]).2 =
+    [.inited false, .inited true, .sent none, .sent (some 1)] := by decide
 
 end EmitModel.C20
